@@ -33,6 +33,33 @@ FORBIDDEN = re.compile(
 )
 
 
+class HarnessTimeout(BaseException):
+    """Raised by time_limit; derives from BaseException so that `except Exception` in the
+    code under test does not swallow it."""
+
+
+class time_limit:
+    """with time_limit(5): ...   -- raises HarnessTimeout in the main thread after `seconds`."""
+
+    def __init__(self, seconds):
+        self.seconds = seconds
+
+    def _fire(self, signum, frame):
+        raise HarnessTimeout("operation exceeded %.1fs" % self.seconds)
+
+    def __enter__(self):
+        import signal
+        self._old = signal.signal(signal.SIGALRM, self._fire)
+        signal.setitimer(signal.ITIMER_REAL, self.seconds)
+        return self
+
+    def __exit__(self, *a):
+        import signal
+        signal.setitimer(signal.ITIMER_REAL, 0)
+        signal.signal(signal.SIGALRM, self._old)
+        return False
+
+
 def sh(cmd, timeout=600, cwd=None, env=None, input=None):
     p = subprocess.run(
         cmd, shell=isinstance(cmd, str), cwd=cwd, env=env, input=input,
